@@ -105,9 +105,9 @@ def r27_drop_zip_counter(label='', header_extra='', body_prefix=''):
     return hook
 
 
-def r28_for_owned(pattern_rx, ctor, itname, header_extra='', body_prefix=''):
+def r28_for_owned(pattern_rx, ctor, itname, header_extra='', body_prefix='', mid=''):
     """-> hook: the single loop `for PAT in EXPR {` whose header matches `pattern_rx` (groups: 1 = PAT, 2 = EXPR) becomes
-    `let mut IT = CTOR(EXPR); while let Some(PAT) = IT.next() HEADER_EXTRA { BODY_PREFIX`  (HEADER_EXTRA = loop invariants, BODY_PREFIX = ghost code: both R8)"""
+    `let mut IT = CTOR(EXPR); while let Some(PAT) = IT.next() HEADER_EXTRA { BODY_PREFIX`  (HEADER_EXTRA = loop invariants, BODY_PREFIX / MID (between the let and the while) = ghost code: all R8)"""
     def hook(body, fired):
         msk = X.mask(body)
         hits = list(re.finditer(pattern_rx, msk))
@@ -115,7 +115,7 @@ def r28_for_owned(pattern_rx, ctor, itname, header_extra='', body_prefix=''):
             raise X.ExtractError('R28: /%s/ matches %d times' % (pattern_rx, len(hits)))
         m = hits[0]
         pat, expr = body[m.start(1):m.end(1)], body[m.start(2):m.end(2)]
-        new = 'let mut %s = %s(%s); while let Some(%s) = %s.next() %s{%s' % (itname, ctor, expr.strip(), pat.strip(), itname, header_extra.replace('\n', X.SEP), body_prefix.replace('\n', X.SEP))
+        new = 'let mut %s = %s(%s);%s while let Some(%s) = %s.next() %s{%s' % (itname, ctor, expr.strip(), mid.replace('\n', X.SEP), pat.strip(), itname, header_extra.replace('\n', X.SEP), body_prefix.replace('\n', X.SEP))
         fired.append('R28 for %s in %s -> let mut %s = %s(..); while let Some(..) = %s.next()' % (X.norm_ws(pat), X.norm_ws(expr), itname, ctor, itname))
         return body[:m.start()] + X._pad(new, body[m.start():m.end()]) + body[m.end():]
     return hook
